@@ -5,13 +5,16 @@ insert / delete / replace_range / replace_range_with / delete_range emits is (a)
 as well (same document: exact tie of apply) and (b) checked with the Lean monitor `respects`
 (lean/PM/Monitor.lean): its range differs from the requested one only by structural tokens and what it
 inserts is an in-order subsequence of the requested content. Props/C11.lean proves what that implies.
+Planning code in front of the Fitter (exact tie, lean/PM/RangeOps.lean via harness/rangeplan.py): `fits_trivially`, the
+answer of `replace_step` as far as no Fitter is involved, and the range `delete_range` hands to `Transform.delete`
+(observed through a Transform subclass in this process) — Props/C11.lean proves `respects` for these instead of monitoring it.
 Search: on the real code: no exception on the bundled-family schemas (totality — decided by search
 only), `check()` + the independent validator, and content preservation computed from to_json().
 """
 from prosemirror.model import Fragment, Slice
 from prosemirror.transform import Transform
 
-from .. import core, gen, ops, schemas
+from .. import core, gen, ops, rangeplan, schemas
 from ..codec import doc_tokens, frag_tokens
 from ..core import outcome
 from ..validator import validator
@@ -56,6 +59,11 @@ def run(ctx):
         outs = ctx.driver.run(reqs) if reqs else []
         for req, (op, replay, exp), out in zip(reqs, metas, outs):
             ctx.count("model_requests")
+            if op in ("fitsTrivially", "replaceStepTrivial", "deleteRangeTarget"):
+                # planning code modelled in lean/PM/RangeOps.lean: exact, including "the code raises"
+                if rangeplan.answer(out) != exp:
+                    ctx.mismatch(op, replay, exp, out)
+                continue
             if out.get("ok") != exp:
                 ctx.mismatch(op, replay, "recorded document" if op == "apply" else exp, out if ("err" in out or op != "apply") else "different document")
         del reqs[:], metas[:]
@@ -77,6 +85,10 @@ def run(ctx):
                     break
                 name, args, thunk = ops.plan_op(rng, info, d, docs, ops.REPLACE_FAMILY)
                 f, t, req = requested(name, args, schema)
+                # planning code in front of the Fitter (exact tie with lean/PM/RangeOps.lean): fits_trivially / replace_step's
+                # trivial path for the requested (from, to, slice), and the range delete_range hands to Transform.delete
+                rangeplan.tie_trivial(ctx, info, d, f, t, req, reqs, metas)
+                rangeplan.tie_delete_range(ctx, info, d, f, t, reqs, metas)
                 tr = Transform(d)
                 st, val_, added = ops.run_op(tr, thunk)
                 replay = {"schema": info.name, "doc": d.to_json(), **ops.describe(name, args)}
